@@ -11,6 +11,7 @@ import (
 	"github.com/cloudflare/circl/ecc/bls12381"
 	"golang.org/x/crypto/sha3"
 	"math/big"
+	"reflect"
 	"strings"
 	"sync"
 	"testing"
@@ -342,6 +343,26 @@ func TestC02Schemes(t *testing.T) {
 					vlib.Report(t, "C02/determinism/"+name, "two signatures of the same (key,msg,ctx) differ")
 					return
 				}
+				// the same key used through its crypto.Signer interface in between (randomized / hedged for the
+				// lattice schemes, with a reader of the harness): whatever that call does, the scheme's
+				// deterministic signature of (key, msg, ctx) afterwards is still the same bytes
+				if cs, ok := sk.(crypto.Signer); ok && rapid.IntRange(0, 2).Draw(t, "viaSigner") == 0 {
+					var hsig []byte
+					var herr error
+					if p, st := vlib.Catch(func() { hsig, herr = cs.Sign(vlib.DrawReader(t, "hedge"), msg, crypto.Hash(0)) }); p != nil {
+						vlib.Report(t, "C02/panic/"+name+"/crypto.Signer.Sign/"+vlib.PanicClass(p), fmt.Sprintf("seed=%x msg=%s: %v\n%s", seed, vlib.Hex(msg), p, st))
+						return
+					}
+					if herr == nil && ctx == "" && !s.Verify(pk, msg, hsig, nil) {
+						vlib.Report(t, "C02/completeness/"+name+"/crypto.Signer", fmt.Sprintf("signature made through crypto.Signer rejected: seed=%x msg=%s", seed, vlib.Hex(msg)))
+						return
+					}
+					vlib.Class(sub, fmt.Sprintf("crypto.Signer-in-between err=%v", herr != nil))
+					if sig3 := s.Sign(sk, msg, opts); !bytes.Equal(sig, sig3) {
+						vlib.Report(t, "C02/determinism/"+name+"/after-crypto.Signer", fmt.Sprintf("seed=%x msg=%s ctx=%q: the deterministic signature changed after the key was used through crypto.Signer.Sign", seed, vlib.Hex(msg), ctx))
+						return
+					}
+				}
 				if !s.Verify(pk, msg, sig, opts) {
 					vlib.Report(t, "C02/completeness/"+name, fmt.Sprintf("honest signature rejected: seed=%x msg=%s ctx=%q", seed, vlib.Hex(msg), ctx))
 					return
@@ -361,6 +382,15 @@ func TestC02Schemes(t *testing.T) {
 				if err != nil || !s.Verify(pk2, msg, sig, opts) || !pk2.Equal(pk) {
 					vlib.Report(t, "C02/completeness/"+name+"/unmarshalled-pk", fmt.Sprintf("err=%v", err))
 					return
+				}
+				// ... and so does a key decoded with the type's own Unpack(*[N]byte) from an array the caller
+				// re-uses afterwards (completeness must not depend on the caller keeping its buffer)
+				if pk3, ok := unpackPublicKey(pk, pkb); ok {
+					if !s.Verify(pk3, msg, sig, opts) || !pk3.Equal(pk) {
+						vlib.Report(t, "C02/completeness/"+name+"/unpacked-pk", fmt.Sprintf("seed=%x: a public key decoded with Unpack, whose source array was overwritten afterwards, rejects the honest signature (Equal(original)=%v)", seed, pk3.Equal(pk)))
+						return
+					}
+					vlib.Class(sub, "pk-via-Unpack")
 				}
 				vfy := func(m, sg []byte) bool { return s.Verify(pk, m, sg, opts) }
 				idp := [][]byte{seed, []byte(ctx)}
@@ -969,6 +999,86 @@ func blsCase[K bls.KeyGroup](t *rapid.T, name string, k K) {
 			}, msg, agg, ikm)
 		}
 	}
+}
+
+// unpackPublicKey decodes enc into a new object of pk's type with its Unpack(*[N]byte) method and
+// overwrites the array afterwards; ok is false for key types without such a method.
+func unpackPublicKey(pk sign.PublicKey, enc []byte) (sign.PublicKey, bool) {
+	pt := reflect.TypeOf(pk)
+	if pt.Kind() != reflect.Ptr {
+		return nil, false
+	}
+	obj := reflect.New(pt.Elem())
+	m := obj.MethodByName("Unpack")
+	if !m.IsValid() || m.Type().NumIn() != 1 || m.Type().NumOut() != 0 {
+		return nil, false
+	}
+	at := m.Type().In(0)
+	if at.Kind() != reflect.Ptr || at.Elem().Kind() != reflect.Array || at.Elem().Elem().Kind() != reflect.Uint8 || at.Elem().Len() != len(enc) {
+		return nil, false
+	}
+	arr := reflect.New(at.Elem())
+	reflect.Copy(arr.Elem(), reflect.ValueOf(enc))
+	m.Call([]reflect.Value{arr})
+	for i := 0; i < len(enc); i++ {
+		arr.Elem().Index(i).SetUint(uint64(enc[i] ^ 0x5a))
+	}
+	out, ok := obj.Interface().(sign.PublicKey)
+	return out, ok
+}
+
+// TestC02BLSFirstUse: the public key of a fresh private key requested by several goroutines at once
+// (PublicKey() computes and caches it on first use): every caller gets the key, and the honest
+// signature verifies under each copy.
+func TestC02BLSFirstUse(t *testing.T) {
+	defer vlib.Done()
+	t.Run("KeyG1SigG2", func(t *testing.T) { blsFirstUse(t, "KeyG1SigG2", bls.G1{}) })
+	t.Run("KeyG2SigG1", func(t *testing.T) { blsFirstUse(t, "KeyG2SigG1", bls.G2{}) })
+}
+
+func blsFirstUse[K bls.KeyGroup](t *testing.T, name string, k K) {
+	sub := "bls-first-use/" + name
+	vlib.Check(t, vlib.N(30, 300), func(t *rapid.T) {
+		ikm := vlib.Bytes(t, 32, 48, "ikm")
+		msg := vlib.Msg(t, "msg")
+		workers := rapid.IntRange(2, 12).Draw(t, "workers")
+		ref, err := bls.KeyGen[K](ikm, nil, nil)
+		if err != nil {
+			t.Fatalf("KeyGen: %v", err)
+		}
+		want, _ := ref.PublicKey().MarshalBinary()
+		sig := bls.Sign(ref, msg)
+		sk, _ := bls.KeyGen[K](ikm, nil, nil) // fresh object: its public key has not been computed yet
+		vlib.Eval(sub)
+		var wg sync.WaitGroup
+		start := make(chan struct{})
+		bad := make([]string, workers)
+		for w := 0; w < workers; w++ {
+			w := w
+			wg.Add(1)
+			go func() {
+				defer wg.Done()
+				<-start
+				pk := sk.PublicKey()
+				b, err := pk.MarshalBinary()
+				switch {
+				case err != nil || !bytes.Equal(b, want):
+					bad[w] = fmt.Sprintf("PublicKey() gives %x (err %v), the key is %x", b, err, want)
+				case !bls.Verify(pk, msg, sig):
+					bad[w] = "honest signature rejected under the key returned by PublicKey()"
+				}
+			}()
+		}
+		close(start)
+		wg.Wait()
+		for w, b := range bad {
+			if b != "" {
+				vlib.Report(t, "C02/completeness/bls-"+name+"/concurrent-first-PublicKey", fmt.Sprintf("ikm=%x, %d goroutines, goroutine %d: %s", ikm, workers, w, b))
+				return
+			}
+		}
+		vlib.NonTrivial(sub, "concurrent-first-use", ikm, msg, []byte{byte(workers)})
+	})
 }
 
 func TestC02BLS(t *testing.T) {
